@@ -149,6 +149,17 @@ let () =
                  Printf.printf "%s nt=%s\n" (match v with Accept -> "accept" | Reject -> "reject") (string_of_z nt)
                end
              | _ -> print_endline "reject parse")
+          | "vector" ->
+            (* n=2 presized=on|off elem=any|nonneg toks=t1,t2,... ("-" = keyword absent, "" = keyword without value) *)
+            let n = int_of_string (get "n") in
+            let rec nat_of_int k = if k <= 0 then O else S (nat_of_int (k - 1)) in
+            let raw = get "toks" in
+            let toks = if raw = "-" then None
+              else Some (List.filter_map (fun w -> if w = "" then None else (match tok_of_text w with Some t -> Some t | None -> None))
+                           (String.split_on_char ',' raw)) in
+            let elem_ok = if get "elem" = "nonneg" then (fun q -> qle_bool { qnum = Z0; qden = XH } q) else (fun _ -> true) in
+            let (_, e) = vector_keyword (nat_of_int n) (on "presized") elem_ok toks in
+            Printf.printf "%s initsafe=1 stepsafe=1\n" (verdict e)
           | "scripted" ->
             let r = scripted_init harness_bytes (tk "size") in
             Printf.printf "%s initsafe=%d stepsafe=1 n=%s\n" (verdict r.r_err) (if all_ok r.r_uses then 1 else 0) (string_of_z r.r_state)
